@@ -1,4 +1,5 @@
 import GsModel.Diff.Mirror
+import GsModel.Diff.Lift5
 /-
   C14 — diff reports the direction of every change correctly: swapping the arguments mirrors the report.
 
@@ -9,8 +10,11 @@ import GsModel.Diff.Mirror
   `checkNumeric_mirror`, `checkString_mirror` (under `EnumSym`), `ifaceCode_mirror` (defaults / examples).
   Counterexample theorems (the statement is FALSE of the code there; each is a known finding replayed on the real
   analyser): `desc_changed_is_deleted_both_ways`, `enum_introduced_is_silent`.
-  The composition into a whole-report law is decided on the real analyser by the both-orders sweep, not by a theorem:
-  labelled partial.
+  At the level of the whole report (every fuel, every iteration order, whatever else the documents contain):
+  `endpoint_direction_report` — an endpoint only the second document has is reported AddedEndpoint, and DeletedEndpoint with
+  the documents exchanged; `param_direction_report` — the same for a parameter of a shared endpoint
+  (Added / Deleted, Required / Optional); `response_direction_report` — and for a response code (AddedResponse / DeletedResponse).  The general whole-report mirror law is decided on the real analyser by the
+  both-orders sweep, not by a theorem: labelled partial.
 -/
 namespace Gs.Props.C14
 open Gs Gs.Gen Gs.Diff
@@ -215,5 +219,47 @@ theorem enum_introduced_is_silent :
     compareProps 5 (strSchema [jv "a"]) (strSchema []) = .ok [{ change := Code.DeletedEnumValue, desc := "a" }] ∧
     compareProps 5 (strSchema []) (strSchema [jv "a"]) = .ok [] := by
   constructor <;> rfl
+
+/-! ### direction at the level of the whole report -/
+
+theorem endpoint_direction_report (fl : Flags) (n : Nat) (a b : Spec) (um : UM) (hb : um ∈ getURLMethodsFor b)
+    (hnew : findUM (getURLMethodsFor a) um.url um.method = none)
+    (hlive : um.item.optionsDeprecated = false ∧ um.op.deprecated = false) :
+    Outcome.Holds (fun ds => ∃ d ∈ ds, d.code = Code.AddedEndpoint) (analyse fl n a b) ∧
+    Outcome.Holds (fun ds => ∃ d ∈ ds, d.code = Code.DeletedEndpoint) (analyse fl n b a) :=
+  endpoint_direction fl n a b um hb hnew hlive
+
+theorem param_direction_report (fl : Flags) (n : Nat) (a b : Spec) (pl : String) (hpl : pl ∈ paramLocations)
+    (uma umb : UM) (ha : uma ∈ getURLMethodsFor a) (hb : umb ∈ getURLMethodsFor b)
+    (hfa : findUM (getURLMethodsFor a) umb.url umb.method = some uma) (hfb : findUM (getURLMethodsFor b) uma.url uma.method = some umb)
+    (name : String) (p : Param)
+    (hnot : lookup (getParams uma.item.params uma.op.params pl) name = none)
+    (hin : (name, p) ∈ getParams umb.item.params umb.op.params pl) :
+    Outcome.Holds (fun ds => ∃ d ∈ ds, d.code = addedCode p) (analyse fl n a b) ∧
+    Outcome.Holds (fun ds => ∃ d ∈ ds, d.code = deletedCode p) (analyse fl n b a) :=
+  param_direction fl n a b pl hpl uma umb ha hb hfa hfb name p hnot hin
+
+theorem response_direction_report (fl : Flags) (n : Nat) (a b : Spec) (uma umb : UM) (ha : uma ∈ getURLMethodsFor a) (hb : umb ∈ getURLMethodsFor b)
+    (hfa : findUM (getURLMethodsFor a) umb.url umb.method = some uma) (hfb : findUM (getURLMethodsFor b) uma.url uma.method = some umb)
+    (resp : Response) (hin : resp ∈ umb.op.responses) (hnot : findResp uma.op.responses resp.code = none) :
+    Outcome.Holds (fun ds => ∃ d ∈ ds, d.code = Code.AddedResponse) (analyse fl n a b) ∧
+    Outcome.Holds (fun ds => ∃ d ∈ ds, d.code = Code.DeletedResponse) (analyse fl n b a) :=
+  response_direction fl n a b uma umb ha hb hfa hfb resp hin hnot
+
+/-- non-vacuity: an endpoint and a parameter that only one document has -/
+def opPlain : Operation := { method := "get", responses := [{ code := 200, desc := "ok" }] }
+def prm : Param := { name := "q", loc := "query", chain := [{ type := "string" }] }
+def opPrm : Operation := { method := "get", params := [prm], responses := [{ code := 200, desc := "ok" }] }
+def specEmpty : Spec := { paths := [] }
+def specPlain : Spec := { paths := [{ url := "/a", ops := [opPlain] }] }
+def specPrm : Spec := { paths := [{ url := "/a", ops := [opPrm] }] }
+def umPlain : UM := { url := "/a", method := "get", item := { url := "/a", ops := [opPlain] }, op := opPlain }
+def umPrm : UM := { url := "/a", method := "get", item := { url := "/a", ops := [opPrm] }, op := opPrm }
+
+example := endpoint_direction_report {} 5 specEmpty specPlain umPlain (show umPlain ∈ [umPlain] from List.mem_cons_self) rfl ⟨rfl, rfl⟩
+example := param_direction_report {} 5 specPlain specPrm "query" (by decide) umPlain umPrm
+  (show umPlain ∈ [umPlain] from List.mem_cons_self) (show umPrm ∈ [umPrm] from List.mem_cons_self) rfl rfl "q" prm rfl
+  (show ("q", prm) ∈ [("q", prm)] from List.mem_cons_self)
+example : (analyse {} 5 specPlain specPrm).isOk = true ∧ (analyse {} 5 specPrm specPlain).isOk = true := by decide
 
 end Gs.Props.C14
